@@ -129,7 +129,12 @@ def parse_harness(I: Interp) -> None:
         I2.ghost["cur"] = c.t
         I2.ghost["pos"] = OFF(c.t)
         self_ = fr.env["self"]
-        self_.fields["_record_offsets"] = VList(None, c.t, lambda j: VInt(OFF(j)))
+        new = VList(None, c.t, lambda j: VInt(OFF(j)))
+        cur_list = self_.fields.get("_record_offsets")
+        if isinstance(cur_list, VList):
+            cur_list.become(new)  # in place: a local alias of the list stays an alias
+        else:
+            self_.fields["_record_offsets"] = new
         fr.env.pop("line", None)
 
     def inv(I2: Interp, fr: Frame) -> list[tuple[str, Any]]:
